@@ -430,6 +430,10 @@ func gapBounded(fn *ssa.Function, st *ssa.Store) (bool, string) {
 			if cv, ok := n.(*ssa.Convert); ok {
 				n = cv.X
 			}
+			// min(max(x, 0), 10) / max(min(x, 10), 0) with the builtins
+			if isClampBuiltin(n, 0) {
+				return true, "space count clamped to 0..10 (min / max builtins)"
+			}
 			if phi, ok := n.(*ssa.Phi); ok {
 				has10, has0 := false, false
 				for _, e := range phi.Edges {
@@ -471,4 +475,40 @@ func gapBounded(fn *ssa.Function, st *ssa.Store) (bool, string) {
 		}
 	}
 	return false, "stored value has no visible bound"
+}
+
+// isClampBuiltin: v is min(max(x, 0), 10) or max(min(x, 10), 0) in any argument order.
+func isClampBuiltin(v ssa.Value, depth int) bool {
+	call, ok := v.(*ssa.Call)
+	if !ok {
+		return false
+	}
+	bi, ok := call.Call.Value.(*ssa.Builtin)
+	if !ok || (bi.Name() != "min" && bi.Name() != "max") || len(call.Call.Args) != 2 {
+		return false
+	}
+	wantConst, innerName, innerConst := int64(10), "max", int64(0)
+	if bi.Name() == "max" {
+		wantConst, innerName, innerConst = 0, "min", 10
+	}
+	for i := 0; i < 2; i++ {
+		k, isK := constInt(call.Call.Args[i])
+		if !isK || k != wantConst {
+			continue
+		}
+		inner, ok := call.Call.Args[1-i].(*ssa.Call)
+		if !ok {
+			continue
+		}
+		ib, ok := inner.Call.Value.(*ssa.Builtin)
+		if !ok || ib.Name() != innerName || len(inner.Call.Args) != 2 {
+			continue
+		}
+		for j := 0; j < 2; j++ {
+			if k2, isK2 := constInt(inner.Call.Args[j]); isK2 && k2 == innerConst {
+				return true
+			}
+		}
+	}
+	return false
 }
